@@ -449,6 +449,14 @@ def _check_prefix(db: DB, rep: Report, f, local: str) -> None:
     sdefs = {k: val for k, val in paths.single_assignments(fn).items() if k not in (L, S)}
     for st, v in defs:
         v = paths.inline_locals(v, fn, sdefs)
+        if isinstance(v, ast.Call) and isinstance(v.func, ast.Name) and v.func.id in ("set", "frozenset", "sorted") \
+                and len(v.args) == 1:
+            rep.check("S7", False, db.loc(st), f.short, "prefix:unordered:" + v.func.id,
+                      "prefix built with %s(...)" % v.func.id,
+                      "the temporal prefix is wrapped in %s(...): the order of the temporal loop ranks is "
+                      "discarded, so Einsums whose prefixes are permutations of each other compare equal and "
+                      "are fused" % v.func.id)
+            continue
         guard = [(norm(a), p) for t, pol in paths.guards(st, stop=fn) for a, p in paths.conjuncts(t, pol)]
         s_true = (S, True) in guard
         s_false = (S, False) in guard
@@ -526,6 +534,8 @@ def mutants(db: DB):
           "        if space_ranks:\n            fused_ranks = loop_ranks[:loop_ranks.index(space_ranks[0])]\n        else:\n            fused_ranks = loop_ranks\n",
           "        fused_ranks = loop_ranks[:min((loop_ranks.index(r) for r in space_ranks), default=len(loop_ranks))]\n",
           (), benign=True),
+        M("prefix compared as a set", rel, "            fused_ranks = loop_ranks[:loop_ranks.index(space_ranks[0])]",
+          "            fused_ranks = set(loop_ranks[:loop_ranks.index(space_ranks[0])])", "S7"),
         M("sequencers no longer functional components", "teaal/ir/component.py",
           "class SequencerComponent(FunctionalComponent):", "class SequencerComponent(Component):", "S8"),
         M("fusion filters on compute units only", rel, "einsum, FunctionalComponent)", "einsum, ComputeComponent)",
